@@ -28,10 +28,12 @@ class Job:
 
 
 def run_job(job, work):
-    tp, status, rc, out = C.run_sim(job.script, work, job.name, binary=job.binary)
-    if status != "OK":
-        raise C.Machinery("driver %s did not finish: status=%r rc=%d\n%s" % (job.name, status, rc, out[-3000:]))
-    job.trace = tp
+    if job.trace is None:
+        tp, status, rc, out = C.run_sim(job.script, work, job.name, binary=job.binary)
+        if status != "OK":
+            raise C.Machinery("driver %s did not finish: status=%r rc=%d\n%s" % (job.name, status, rc, out[-3000:]))
+        job.trace = tp
+    tp = job.trace
     ok, matched, total, tout = C.validate_trace(job.module, job.cfg, tp, work, focus=job.focus, env=job.env)
     job.lines = total
     job.accepted = ok
@@ -366,7 +368,65 @@ def c19(pid, tier, work, replay):
         extra_jobs=extra)
 
 
+def reopen_script(seed, ntraces, nops, workdir):
+    """C13: operation histories on the persistent driver with a close/reopen or a
+    downgrade-to-older-format + reopen after arbitrary prefixes"""
+    import random
+    rnd = random.Random(seed)
+    ops = []
+    for _ in range(ntraces):
+        g = GS.StoreGen(rnd)
+        g.reset()
+        for _ in range(3):
+            g.set_node()
+        migrated = False
+        for _ in range(nops):
+            x = rnd.random()
+            if x < 0.12:
+                g.ops.append({"op": "Reopen"})
+            elif x < 0.18:
+                g.ops.append({"op": "Downgrade", "v": rnd.choice([0, 1])})
+                migrated = True
+            elif migrated and x < 0.22:
+                pass
+            else:
+                g.random_op()
+                if g.ops[-1]["op"] == "Nonce" and migrated:
+                    g.ops.pop()   # nonce records of old formats are legitimately discarded: no verdict
+        ops += g.ops
+    return {"driver": "badger", "dir": workdir + "/badger-reopen-%d" % seed, "seed": seed, "ops": ops}
+
+
+def c13(pid, tier, work, replay):
+    from . import crash as CR
+    s = C.seed()
+    C.build(("sim",))
+    rounds = sized(tier, 40, 600)
+    trace, infos, typical = CR.crash_traces(work, s, rounds, workers=8 if tier == "quick" else 14)
+    kinds = {}
+    for i in infos:
+        k = "%s/%s" % (i.get("mode"), i.get("inflight") if i.get("killed") else "finished-before-kill")
+        kinds[k] = kinds.get(k, 0) + 1
+    C.log("crash rounds: %d (full child run %.2fs); kill points by mode/in-flight operation: %s" % (rounds, typical, kinds))
+    cj = Job("c13-crash", None, "VipStoreTrace", "VipStoreTrace.cfg", "all")
+    cj.trace = trace
+    nt, nops = sized(tier, (30, 40), (400, 60))
+    rj = Job("c13-reopen", reopen_script(s * 1000 + 13, nt, nops, work), "VipStoreTrace", "VipStoreTrace.cfg", "all")
+    return trace_family(
+        pid, tier, work, [("VipStoreMC", "VipStoreMC_bal.cfg")], [cj, rj],
+        ["a crash is a process kill (SIGKILL): what the OS has accepted survives; power loss is out of scope",
+         "the badger directory is opened exactly with the options pool.go uses (badger.DefaultOptions) in the crash rounds",
+         "nonce records of older on-disk formats are discarded by the migration by design: no verdict on nonces after a downgrade"],
+        "crash rounds: a child process executes a seeded history (SetNode, UpdateNodePeers, balances, linking with trial migration, nonces) on a "
+        "badger directory and is killed with SIGKILL either right after a chosen acknowledged operation or at a random moment (possibly inside "
+        "an operation); the directory is re-opened, the complete observable state read back and validated: everything acknowledged present, "
+        "the operation in flight applied completely or not at all; then the history continues.  Plus close/reopen and downgrade-to-v0/v1 + "
+        "migration after arbitrary prefixes; distinct = (operation, outcome class)",
+        extra_cov={"crash_rounds": rounds, "kill_points": kinds})
+
+
 CHECKS = {
+    "C13": c13,
     "C19": c19,
     "PXX": pxx,
     "C01": c01,
